@@ -7,6 +7,8 @@
 mod arena;
 mod contain;
 mod count;
+mod crash;
+mod probe;
 mod interpose;
 mod snap;
 mod synth;
@@ -54,12 +56,29 @@ fn run_one(scv: &Value, sh: &Shared) -> Value {
             };
             run_contained(120, || count::execute(&sc, sh))
         }
+        "crash" => {
+            let sc: crash::CrashScenario = match serde_json::from_value(scv.clone()) {
+                Ok(s) => s,
+                Err(e) => return json!({"invalid": format!("{e}")}),
+            };
+            run_contained(300, || crash::execute(&sc, sh))
+        }
+        "probe" => {
+            let sc: probe::ProbeScenario = match serde_json::from_value(scv.clone()) {
+                Ok(s) => s,
+                Err(e) => return json!({"invalid": format!("{e}")}),
+            };
+            run_contained(120, || probe::execute(&sc, sh))
+        }
         other => return json!({"invalid": format!("unknown family {other}")}),
     };
     match end {
         ChildEnd::Report(v) => v,
         ChildEnd::Signal(s) => {
             let v = match kind.as_str() {
+                "crash" => crash::signal_violation(s, sh),
+                "probe" => probe::signal_violation(s, sh, if scv["profile"] == "C10" { "C10" } else { "C13" }),
+                "count" => json!({"tag": format!("died-with-signal[{}]", signal_name(s)), "props": ["C06", "C05"], "detail": format!("killed by {} in lifetime {}, call {}", signal_name(s), sh.get(1), sh.get(2))}),
                 _ => synth::signal_violation(s, sh),
             };
             json!({"violations": [v], "digest": format!("{:016x}", 0xDEADu64 + s as u64), "died": signal_name(s)})
@@ -73,6 +92,8 @@ fn generate(family: &str, profile: &str, seed: u64, index: u64) -> Value {
     match family {
         "synth" => serde_json::to_value(synth::generate(profile, seed, index)).unwrap(),
         "count" => serde_json::to_value(count::generate(profile, seed, index)).unwrap(),
+        "crash" => serde_json::to_value(crash::generate(profile, seed, index)).unwrap(),
+        "probe" => serde_json::to_value(probe::generate(profile, seed, index)).unwrap(),
         f => panic!("unknown family {f}"),
     }
 }
